@@ -153,7 +153,7 @@ def _(c):
                            specs.blur_rel(row.connect_time, c.a.t("server_rx")),
                            row.implementation == to_term(cv[0], "json"), row.version == to_term(cv[1], "json"))),
                        tbl_eq(c.pre.t(UCV), c.post.t(UCV))), ["C16", "C18"]
-    yield "committed", If(H.CFG_USAGE, Not(c.post.in_tx["us"]), c.post.in_tx["us"] == c.pre.in_tx["us"]), ["C09"]
+    yield "committed", If(H.CFG_USAGE, Not(c.post.in_tx["us"]), c.post.in_tx["us"] == c.pre.in_tx["us"]), ["C09", "C11", "C16"]
 
 
 # ------------------------------------------------ nameplate id queries
@@ -232,7 +232,7 @@ def _(c):
     yield "when", Not(EX([INT], lambda j: short_free(c, j)))
 
 
-@c.loop(2, modifies=[], tags=["C04"])
+@c.loop(2, modifies=[], tags=["C04"], over="range(1000)")
 def _(c, L):
     yield "trivial", BoolVal(True)
 
@@ -361,7 +361,7 @@ def open_mailbox_post(c, res):
     me = c.self_ref
     yield "row", mailbox_row_post(S0, S1, a, mid, when), ["C05", "C08", "C12", "C14"]
     yield "side_row", side_row_post(S0, S1, mid, side, when), ["C05", "C14", "C08"]
-    yield "committed", Not(S1.in_tx["ch"]), ["C09"]
+    yield "committed", Not(S1.in_tx["ch"]), ["C09", "C05", "C08", "C10", "C11"]
     m0 = hp(S0, "AppNamespace._mailboxes")
     old = m0[me][mid]
     new = hp(S1, "AppNamespace._mailboxes")[me][mid]
@@ -480,7 +480,7 @@ def claim_post(c, res):
         yield "returns_row_mailbox", np1.exists(lambda r: And(r.app_id == a, r.name == name, r.mailbox_id == res)), ["C03"]
     else:
         yield "only_existing", existed, ["C05"]
-    yield "committed", Not(S1.in_tx["ch"]), ["C09"]
+    yield "committed", Not(S1.in_tx["ch"]), ["C09", "C03", "C05", "C07", "C10", "C11"]
     yield "registry_wf", registry_wf(S1, c.self_ref), ["C02"]
 
 
@@ -551,7 +551,7 @@ def _(c):
     yield "claimed_before_return", And(
         S1.t(NP).live[n1], S1.t(NP).cols["app_id"][n1] == a, S1.t(NP).cols["name"][n1] == res,
         S1.t(NS).exists(lambda r: And(r.nameplates_id == n1, r.side == side, r.claimed))), ["C04"]
-    yield "committed", Not(S1.in_tx["ch"]), ["C09"]
+    yield "committed", Not(S1.in_tx["ch"]), ["C09", "C03", "C04", "C07", "C10", "C11"]
     yield "registry_wf", registry_wf(S1, c.self_ref), ["C02"]
     yield "registry_effect", registry_effect(S0, S1, c.self_ref, a, S1.t(NP).cols["mailbox_id"][n1]), ["C02"]
     # the rest of the database moves as in a claim of a new name
@@ -614,7 +614,7 @@ def release_post(c):
         return Implies(ns0.exists(mine(n)), If(others, keep, retire))
     # Claims' = Claims \ {side}; the nameplate goes exactly when no claim remains; one usage record then
     yield "effect", FA([INT], lambda n: Implies(N(n), effect(n))), ["C07", "C15", "C16", "C14"]
-    yield "committed", I.Clean(S1), ["C09"]
+    yield "committed", I.Clean(S1), ["C09", "C03", "C07", "C10", "C11", "C15"]
 
 
 @c.ensures
@@ -717,12 +717,12 @@ def _(c):
     nothing = Not(EX([INT], oldrow))
     yield "usage_only_on_retirement", Implies(Or(nothing, Not(H.CFG_USAGE)),
                                               And(tbl_eq(S0.t(UNP), S1.t(UNP)), tbl_eq(S0.t(UMB), S1.t(UMB)))), ["C15", "C18"]
-    yield "committed", I.Clean(S1), ["C09"]
+    yield "committed", I.Clean(S1), ["C09", "C10", "C11", "C13", "C15"]
     m = hp(S0, "AppNamespace._mailboxes")[c.self_ref]
     yield "in_use_iff_mailbox_objects", to_term(c.result, "bool") == EX([Str], lambda k: m[k] != 0), ["C02", "C12", "C15"]
 
 
-@c.loop(0, modifies=[MB, "in_tx.ch"], tags=["C12"])
+@c.loop(0, modifies=[MB, "in_tx.ch"], tags=["C12"], over="self._mailboxes.values()")
 def _(c, L):
     """touch loop: the rows of the registered mailboxes processed so far that have listeners carry updated=now"""
     E, S = L.entry, c.post
@@ -733,7 +733,8 @@ def _(c, L):
     yield "in_tx_us", S.in_tx["us"] == E.in_tx["us"]
 
 
-@c.loop(3, modifies=[NS, NP, UNP, "in_tx.ch", "in_tx.us"], locals_=[("modified", "bool")], tags=["C13", "C12", "C15"])
+@c.loop(3, modifies=[NS, NP, UNP, "in_tx.ch", "in_tx.us"], locals_=[("modified", "bool")], tags=["C13", "C12", "C15"],
+        over="old_nameplates")
 def _(c, L):
     """nameplate deletion loop: the old nameplates processed so far and their side rows are gone, nothing else"""
     E, S = L.entry, c.post
@@ -765,7 +766,8 @@ def _(c, L, head):
                               tbl_eq(head.t(UNP), S.t(UNP))), ["C15", "C16"]
 
 
-@c.loop(4, modifies=[MSG, MS, MB, UMB, "in_tx.ch", "in_tx.us"], locals_=[("modified", "bool")], tags=["C13", "C12", "C15"])
+@c.loop(4, modifies=[MSG, MS, MB, UMB, "in_tx.ch", "in_tx.us"], locals_=[("modified", "bool")], tags=["C13", "C12", "C15"],
+        over="old_mailboxes")
 def _(c, L):
     """mailbox deletion loop: the old mailboxes processed so far are gone with their messages and side rows"""
     E, S = L.entry, c.post
